@@ -657,7 +657,7 @@ def run(ck):
         "C17 selection: checks/promsel.py parses the implementation's SQL text into a Sql.v tree; the parse is validated per case by rendering it back with the model renderer (byte equality)",
         "C17 Select loop: labels.Hash() (xxhash of the label list, ReshuffleSeries' key since fix 3acbc45) is treated as injective on label lists; sort.Slice instability on ties is canonicalised away",
     ]
-    ok, out = ck.coq_make(["model/PromCase.vo", "model/ProfSel.vo", "model/PromDown.vo"])
+    ok, out = ck.coq_make(["model/PromCase.vo", "model/ProfSel.vo", "model/PromDown.vo", "model/PromSelDup.vo"])
     if not ok:
         ck.obligation("selection models build", False, out[-1500:])
         return
@@ -918,7 +918,7 @@ def run_shard(ck, cases, idx):
     rc, out = ck.ocaml_eval("promsel", "ExtractPromSel.v", "promsel", 'let data_file = "%s"\n' % data, "promsel_driver.ml")
     if rc != 0 and "extraction failed" in out:
         # a shared model (LogqlPlan.v, Sql.v) was rebuilt by a concurrent run between two shards: rebuild ours and retry once
-        ck.coq_make(["model/PromCase.vo", "model/ProfSel.vo", "model/PromDown.vo"])
+        ck.coq_make(["model/PromCase.vo", "model/ProfSel.vo", "model/PromDown.vo", "model/PromSelDup.vo"])
         rc, out = ck.ocaml_eval("promsel", "ExtractPromSel.v", "promsel", 'let data_file = "%s"\n' % data, "promsel_driver.ml")
     if rc != 0:
         ck.obligation("selection cases evaluated by the extracted models", False, out[-2500:])
@@ -1035,12 +1035,14 @@ def run_shard(ck, cases, idx):
         elif v[1] == "1":
             hard.append(c)
     known = ck.known_findings()
-    ck.obligation("spec oracle select_spec_ok accepts every series set observed from Select (contiguous rows, distinct label sets)",
+    ck.obligation("spec oracle select_spec_ok accepts every series set observed from Select (contiguous rows, distinct label sets; label set under several fingerprints: PromSelDup.select_dup_exact_ok)",
                   not hard, "violating case ids: %s" % [c["id"] for c in hard[:10]])
     if hard:
         worst = min(hard, key=lambda c: (len(c.get("rows") or []), len(json.dumps(c.get("fetch") or []))))
-        ck.violation({"property": "C17", "part": "select", "kind": "Select's series set violates the specification: every fingerprint once, with exactly its rows in order, under its own labels, sorted",
+        ck.violation({"property": "C17", "part": "select", "kind": "Select's series set violates the specification: every fingerprint once, with exactly its rows in order, under its own labels, sorted"
+                      " (label set under several fingerprints: one series carrying exactly the rows of those fingerprints, ascending; PromSelDup.select_dup_exact_ok)",
                       "case": slim(worst), "observed": worst.get("obs"),
+                      "series_not_carrying_their_own_samples (row level: before MapResult, if the hints install one)": own_samples_report(worst),
                       "replay": "harness promsel --cases <file with the case line>"})
     elif sel_m:
         worst = min(sel_m, key=lambda c: len(c.get("rows") or []))
@@ -1109,6 +1111,49 @@ def run_shard(ck, cases, idx):
     return True
 
 
+def dup_groups(c):
+    """label set (sorted pairs) -> fingerprints of the rows carrying it, in row order (last answered labels row wins)"""
+    lab = {}
+    for f in c.get("fetch") or []:
+        lab[f["fp"]] = tuple(sorted((kv[0], kv[1]) for kv in f.get("labels") or []))
+    order = []
+    for r in c.get("rows") or []:
+        if r["fp"] not in order:
+            order.append(r["fp"])
+    groups = {}
+    for fp in order:
+        groups.setdefault(lab.get(fp, ()), []).append(fp)
+    return order, groups
+
+
+def dup_apart(c):
+    """the shape seed C17-g needs: one label set under two fingerprints with another series (other label set) between them"""
+    order, groups = dup_groups(c)
+    for fps in groups.values():
+        if len(fps) >= 2:
+            i, j = order.index(fps[0]), order.index(fps[-1])
+            if any(order[k] not in fps for k in range(i + 1, j)):
+                return True
+    return False
+
+
+def own_samples_report(c):
+    """for the replay: per observed series the samples it must carry (rows of the fingerprints under its label set; MapResult cases: row level only)"""
+    order, groups = dup_groups(c)
+    rep = []
+    for o in c.get("obs") or []:
+        key = tuple(sorted((kv[0], kv[1]) for kv in o.get("labels") or []))
+        fps = groups.get(key) or []
+        want = sorted([[r["ts"], r["val"]] for r in c.get("rows") or [] if r["fp"] in fps], key=lambda x: x[0]) if len(fps) > 1 else \
+            [[r["ts"], r["val"]] for r in c.get("rows") or [] if r["fp"] in fps]
+        got = [list(x) for x in o.get("samples") or []]
+        if sorted(got) != sorted(want):
+            rep.append({"labels": o.get("labels"), "fingerprints_under_this_label_set": fps, "handed_to_the_engine": got,
+                        "stored_rows_of_those_fingerprints": want,
+                        "foreign_samples": [x for x in got if x not in want], "lost_samples": [x for x in want if x not in got]})
+    return rep
+
+
 def coverage(ck, cases):
     hist = {}
     distinct = set()
@@ -1126,8 +1171,15 @@ def coverage(ck, cases):
     ck.coverage["rule"] += ("selection: hints (Func from the instant/range/aggregate/unknown pools, Start aligned or not to 15 s, Step and Range around the 15 s threshold and 0) "
                             "x matcher sets (0..5 matchers, rarely 9..11; = != =~ !~ on present and absent labels, values with quotes/backslashes/LIKE metacharacters/non-ASCII) "
                             "x cluster flag; profile selectors through the real parser (pseudo labels and key/value labels, quoted and ticked strings); "
-                            "Select over scripted rows (fingerprint-sorted, duplicate label sets, missing labels, shuffled rows) and small databases (2..6 series, samples on and around the window bounds, log-typed series); "
+                            "Select over scripted rows (fingerprint-sorted, duplicate label sets - also under non-adjacent fingerprints with other series between (dup-labels-apart) -, missing labels, shuffled rows) and small databases (2..6 series, samples on and around the window bounds, log-typed series); "
                             "non-trivial = at least one matcher/selector; distinct by content. ")
     ck.extra["promsel_input_classes"] = hist
+    q = [c for c in cases if c["kind"] == "querier" and not c.get("err") and "rows-shuffled" not in (c.get("class") or [])]
+    ck.extra["select_rows_measured"] = {
+        "row_sets": len(q),
+        "label_set_under_two_fingerprints": len([c for c in q if any(len(v) > 1 for v in dup_groups(c)[1].values())]),
+        "label_set_under_two_fingerprints_with_another_series_between": len([c for c in q if dup_apart(c)]),
+        "of_those_every_fingerprint_with_its_labels_row": len([c for c in q if dup_apart(c) and () not in dup_groups(c)[1]]),
+    }
     ck.add_samples([{"kind": c["kind"], "hints": c.get("hints"), "matchers": c.get("ms"), "sql": (c.get("sql") or "")[:300]}
                     for c in cases if c["kind"] == "querier"][:2])
